@@ -203,9 +203,18 @@ def _tree_behaviours(ctx, nsim, tiny=True):
         fs = ex.submit(tlc, "StateTree", "GenTree", cfg="SimTree", workers=1, coverage=False,
                        simulate=nsim, depth=6, seed=ctx.seed, libs=TREE_LIBS)
         ft = ex.submit(tlc, "StateTree", "GenTree", cfg="GenTreeTiny", workers=2, coverage=False, libs=TREE_LIBS) if tiny else None
+        # all single commits over three sort keys sharing their first nibble (every way of replacing the children
+        # of an inner tree node in ONE commit: delete-all-and-create-one, swap, collapse to one leaf ...)
+        ft2 = ex.submit(tlc, "StateTree", "GenTree", cfg="GenTreeTiny2", workers=1, coverage=False, libs=TREE_LIBS)
         rs = fs.result()
         rt = ft.result() if ft else None
-    beh = (rt.printed("B") if rt else []) + rs.printed("B")
+        rt2 = ft2.result()
+    tiny2 = rt2.printed("B")
+    if len(tiny2) != 288:
+        raise ToolError("GenTreeTiny2 produced %d behaviours (expected 288)" % len(tiny2))
+    if not tiny:
+        tiny2 = tiny2[::24]        # callers that only want a small set (crash enumeration) get a 12-behaviour slice
+    beh = (rt.printed("B") if rt else []) + tiny2 + rs.printed("B")
     if len(beh) < nsim:
         raise ToolError("tree behaviour generation produced only %d behaviours" % len(beh))
     return beh
@@ -221,7 +230,7 @@ def C17(ctx):
     tlc_must_pass(r, "MCStateTree")
     ctx.add_tlc(r)
     if q:
-        beh = beh[:400] + beh[3136:]
+        beh = beh[:400] + beh[3136:]      # 400 of the 3136 two-partition tiny behaviours, all of tiny2, all simulated ones
     ctx.sample({"behaviour_step": beh[-1][1]})
     d = ctx.wpath("tree")
     replay_behaviours(ctx, "vh_store", "tree", beh, vh_args=["dir=" + d, "merkle=%d" % (40 if q else 25)], mode="tree")
@@ -392,11 +401,11 @@ def C12(ctx):
         s0 = max(j for j in range(i + 1) if ch[j]["a"] == "init")
         ctx.violation("track:%s" % ch[i]["a"], "Track run rejected at operation %s" % json.dumps(ch[i])[:200],
                       {"run": ch[s0:i + 1], "tlc_violated": rr.violated})
-    # binding self-test: a corrupted result must be rejected
-    bad = json.loads(json.dumps(runs[0]))
-    for e in bad:
-        if e["a"] == "finalize":
-            e["upd"] = e["upd"] + [[1, 1, 3]] if not any(u[0] == 1 and u[1] == 1 for u in e["upd"]) else [u for u in e["upd"] if not (u[0] == 1 and u[1] == 1)]
+    # binding self-test: a corrupted result must be rejected (one written value of the final state updates changed)
+    src = next(r_ for r_ in runs if r_[-1]["a"] == "finalize" and r_[-1]["upd"])
+    bad = json.loads(json.dumps(src))
+    u0 = bad[-1]["upd"][0]
+    u0[2] = 1 if u0[2] == 0 else (u0[2] % 3) + 1
     p = ctx.wpath("track-selftest.ndjson")
     write_ndjson(p, bad)
     ok, idx, rr = validate_trace("Track", "TraceTrack", p)
